@@ -3,7 +3,9 @@ package props
 import (
 	"fmt"
 	"testing"
+	"time"
 
+	"github.com/dgrr/http2"
 	"pgregory.net/rapid"
 
 	"verif/harness/peer"
@@ -25,6 +27,12 @@ type c07Case struct {
 	MaxFrame uint32          `json:"maxframe"` // server's first SETTINGS_MAX_FRAME_SIZE (0 = not sent)
 	Ups      []speer.ReqSpec `json:"ups"`
 	Acts     []c07Act        `json:"acts"`
+	// SlowHeaders: the last upload is started while the server is not reading and the client's socket buffer is
+	// 8 octets, so the client's write loop is stopped in the middle of writing that request's HEADERS; a SETTINGS
+	// frame with INITIAL_WINDOW_SIZE = SlowWin arrives and is applied meanwhile; then the server reads again. The
+	// window the upload starts with must be the new one (a schedule a few instructions wide without the stall).
+	SlowHeaders bool   `json:"slowheaders,omitempty"`
+	SlowWin     uint32 `json:"slowwin,omitempty"`
 }
 
 func c07Run(c c07Case) Outcome {
@@ -45,7 +53,39 @@ func c07Run(c c07Case) Outcome {
 		return Outcome{Inconcl: "no connection"}
 	}
 	calls := make([]*speer.Call, len(c.Ups))
+	slowInconcl := ""
 	for i, u := range c.Ups {
+		if c.SlowHeaders && i == len(c.Ups)-1 && u.BodyLen > 0 && u.Mode != 3 {
+			if ok, d := env.Quiesce(); !ok {
+				return Outcome{Inconcl: "no quiescence before the slow request: " + d}
+			}
+			sc.SrvRaw.HoldReads(true)
+			sc.CliRaw.SetWriteLimit(8)
+			acksBefore := sc.Stats.Ev[http2.VerifEvOutQueued].Load()
+			calls[i] = env.Do(u)
+			for dl := time.Now().Add(2 * time.Second); !sc.CliRaw.WriterBlocked(); time.Sleep(100 * time.Microsecond) {
+				if time.Now().After(dl) {
+					slowInconcl = "the client's write did not block"
+					break
+				}
+			}
+			if slowInconcl == "" {
+				sc.SendSettings([][2]uint32{{4, c.SlowWin}})
+				// applied once the client has queued its acknowledgement (the write loop cannot send it yet)
+				for dl := time.Now().Add(2 * time.Second); sc.Stats.Ev[http2.VerifEvOutQueued].Load() == acksBefore; time.Sleep(100 * time.Microsecond) {
+					if time.Now().After(dl) {
+						slowInconcl = "the client did not take the SETTINGS frame in"
+						break
+					}
+				}
+			}
+			sc.CliRaw.SetWriteLimit(0)
+			sc.SrvRaw.HoldReads(false)
+			if slowInconcl != "" {
+				return Outcome{Inconcl: "slow-headers set-up: " + slowInconcl}
+			}
+			continue
+		}
 		calls[i] = env.Do(u)
 	}
 	idOf := map[string]uint32{}
@@ -244,6 +284,10 @@ func c07Gen(t *rapid.T) c07Case {
 			a.N = rapid.SampledFrom([]uint32{16384, 16385, 20000, 65536, 1 << 20, 1<<24 - 1}).Draw(t, "mf")
 		}
 		c.Acts = append(c.Acts, a)
+	}
+	if rapid.IntRange(0, 3).Draw(t, "slowheaders") == 0 {
+		c.SlowHeaders = true
+		c.SlowWin = rapid.SampledFrom([]uint32{0, 1, 1000, 16384, 65535, 100000, 1 << 20}).Draw(t, "slowwin")
 	}
 	return c
 }
